@@ -115,7 +115,7 @@ class Ctx(object):
         self.solver.add(f)
 
     def feasible(self, f=None):
-        self.solver.set('timeout', min(self.timeout_ms, 3000))
+        self.solver.set('timeout', min(self.timeout_ms, int(os.environ.get('PYVC_FEAS_MS', '800'))))
         try:
             r, _ = self._check(*([f] if f is not None else []))
         finally:
@@ -383,7 +383,9 @@ class Program(object):
 # the interpreter
 
 class LoopSpec(object):
-    def __init__(self, inv, modifies=(), havoc=None, inplace=(), note=''):
+    def __init__(self, inv, modifies=(), havoc=None, inplace=(), note='', ghost=None, before=None):
+        self.ghost = ghost          # callable(it, view, k): set ghost state (e.g. rng epoch) for iteration k
+        self.before = before        # callable(it, view): capture entry values (called before init)
         self.inv = inv              # callable(view, k) -> list of (name, z3 Bool)
         self.modifies = tuple(modifies)
         self.havoc = havoc or {}    # name -> callable(it, old) -> new value
@@ -425,6 +427,10 @@ class Interp(object):
         self.builtins_env = Env(kind='module', vars=lib.make_builtins(self))
         self.drop_log = set()
         self.inlined = set()
+        self.rng_epoch = 0
+        self.rng_log = []
+        self.lazy_index = None
+        self.pure_depth = 0
 
     # ---------------------------------------------------------------- modules
     def exec_module_body(self, body, env, mod):
@@ -597,6 +603,8 @@ class Interp(object):
             return self.call_func(f, args, kwargs)
         if isinstance(f, ClassVal):
             return self.instantiate(f, args, kwargs)
+        if isinstance(f, Unmodelled) and ('unmodelled:' + f.what.split(' ')[0]) in self.summaries:
+            return self.summaries['unmodelled:' + f.what.split(' ')[0]](self, args, kwargs)
         if isinstance(f, Model):
             return f.py_call(self, args, kwargs)
         if isinstance(f, ObjVal):
@@ -970,6 +978,8 @@ class Interp(object):
         tag = "%s#loop%s" % (key[0].split(':')[-1], key[1])
         view = View(self, env)
         self.ctx.assume(n >= 0)
+        if spec.before:
+            spec.before(self, view)
         for nm, f in spec.inv(view, z3.IntVal(0)):
             self.ctx.oblige("loop-init/%s@%s" % (nm, tag), f)
         which = self.ctx.choose(2, tag)
@@ -977,6 +987,8 @@ class Interp(object):
         if which == 0:
             k = self.ctx.fresh_int('k')
             self.ctx.assume(z3.And(k >= 0, k < n))
+            if spec.ghost:
+                spec.ghost(self, view, k)
             for nm, f in spec.inv(view, k):
                 self.ctx.assume(f)
             self.assign_target(st.target, seq.element(k), env)
@@ -991,6 +1003,8 @@ class Interp(object):
             self.ctx.cover("loop-body@" + tag)
             raise PathCut("loop body verified")
         else:
+            if spec.ghost:
+                spec.ghost(self, view, to_num(n))
             for nm, f in spec.inv(view, n):
                 self.ctx.assume(f)
             self.exec_block(st.orelse, env)
@@ -1048,12 +1062,16 @@ class Interp(object):
         tag = "%s#loop%s" % (key[0].split(':')[-1], key[1])
         view = View(self, env)
         j0 = z3.IntVal(0)
+        if spec.before:
+            spec.before(self, view)
         for nm, f in spec.inv(view, j0):
             self.ctx.oblige("loop-init/%s@%s" % (nm, tag), f)
         which = self.ctx.choose(2, tag)
         self.havoc_loop(st, spec, env, view, tag)
         k = self.ctx.fresh_int('k')
         self.ctx.assume(k >= 0)
+        if spec.ghost:
+            spec.ghost(self, view, k)
         for nm, f in spec.inv(view, k):
             self.ctx.assume(f)
         c = self.truth(self.eval(st.test, env))
@@ -1159,6 +1177,16 @@ class Interp(object):
 
     def eval_IfExp(self, e, env):
         c = self.truth(self.eval(e.test, env))
+        if self.pure_depth and not isinstance(c, bool):
+            # inside an element closure of a symbolic-length comprehension: no path split on a
+            # condition about the (bound) element index; both arms are evaluated and merged
+            a, b = self.eval(e.body, env), self.eval(e.orelse, env)
+            za, zb = to_num(a), to_num(b)
+            if za is None or zb is None:
+                raise Unsupported("conditional expression with non-numeric arms in a comprehension")
+            if za.is_int() != zb.is_int():
+                za, zb = to_real(za), to_real(zb)
+            return z3.If(c, za, zb)
         if self.ctx.branch(c, 'ifexp'):
             return self.eval(e.body, env)
         return self.eval(e.orelse, env)
@@ -1221,6 +1249,10 @@ class Interp(object):
             if isinstance(a, (str, SName)) and isinstance(b, (str, SName)):
                 return self.lib.str_concat(self, a, b)
             raise PyRaise(ExcVal('TypeError', ("str + non-str",)))
+        if isinstance(op, ast.Mult) and isinstance(a, list) and isinstance(b, z3.ArithRef) and len(a) == 1:
+            return self.lib.repeat_list(self, a[0], b)
+        if isinstance(op, ast.Mult) and isinstance(b, list) and isinstance(a, z3.ArithRef) and len(b) == 1:
+            return self.lib.repeat_list(self, b[0], a)
         sym = is_z3(a) or is_z3(b)
         if not sym:
             try:
@@ -1617,10 +1649,19 @@ class Interp(object):
             if g.ifs:
                 raise Unsupported("filtered comprehension over a symbolic-length sequence")
 
+            epoch = self.rng_epoch
+            self.rng_epoch = self.rng_epoch + 1     # one block of stream positions for this comprehension
+
             def elem(k):
                 e2 = Env(parent=env, kind='func')
-                self.assign_target(g.target, seq.element(k), e2)
-                return self.eval(elt, e2)
+                saved = (self.lazy_index, self.pure_depth)
+                self.lazy_index = (epoch, k)
+                self.pure_depth += 1
+                try:
+                    self.assign_target(g.target, seq.element(k), e2)
+                    return self.eval(elt, e2)
+                finally:
+                    self.lazy_index, self.pure_depth = saved
             return self.lib.SList(seq.length, elem)
         out = []
         for v in seq:
